@@ -532,7 +532,7 @@ def _c12_jobs(tier):
         jobs.append(("c12_request", ["--topo", 6, "--pool", 0, "--reqs", "1,3,4", "--tprov", tprov, "--depth", 5 if q else 6, "--deadline", dl]))
     jobs.append(("c12_request", ["--topo", 6, "--pool", 0, "--nreq", 3, "--depth", 5 if q else 6, "--deadline", dl]))
     jobs.append(("c12_request", ["--topo", 6, "--pool", 0, "--reqs", "0,1,3", "--tprov", 1, "--cb", 1, "--depth", 5 if q else 6, "--deadline", dl]))
-    nsh = 2 if q else 6
+    nsh = 2 if q else 4
     for sh in range(nsh):
         jobs.append(("c12_request", ["--topo", 6, "--pool", 0, "--reqs", "3,4", "--depth", 6 if q else 7, "--shard", "%d/%d" % (sh, nsh), "--deadline", dl]))
     # environment deviation: the out-of-band queue sink -> source (255 entries) is full (operation fill = burst of
